@@ -1,35 +1,25 @@
 import CalicoVerif.Proofs.C16b
 namespace CalicoVerif.C16
 
+theorem drainStep_frame (o : W) (acc : W × Bool) (name : String) (h : Frame o acc.1) :
+    Frame o (W.drainStep acc name).1 := by
+  unfold W.drainStep
+  have h2 := resyncIPSet_frame acc.1 name
+  dsimp only
+  split
+  · exact Frame.trans h (Frame.trans h2 ⟨rfl, by simp, rfl⟩)
+  · exact Frame.trans h h2
+
 theorem drain_frame (w : W) : Frame w w.drain.1 := by
   unfold W.drain
   dsimp only
-  -- the per-name step preserves the frame relative to a fixed origin
-  have hstep : ∀ (o : W) (acc : W × Bool) (name : String), Frame o acc.1 →
-      Frame o ((fun (acc : W × Bool) (name : String) =>
-        let (w, failed) := acc
-        let (w, e) := w.resyncIPSet name
-        if e && w.F.desired.has name then ({ w with F := w.F.qAdd name true }, true) else (w, failed)) acc name).1 := by
-    intro o acc name h
-    obtain ⟨w0, f0⟩ := acc
-    dsimp only at h ⊢
-    have h2 := resyncIPSet_frame w0 name
-    generalize w0.resyncIPSet name = r at h2
-    obtain ⟨w1, e⟩ := r
-    dsimp only at h2 ⊢
-    split
-    · exact Frame.trans h (Frame.trans h2 ⟨rfl, by simp, rfl⟩)
-    · exact Frame.trans h h2
   have h0 : Frame w { w with F := { w.F with qMust := [] } } := ⟨rfl, rfl, rfl⟩
-  have h1 := foldl_inv (fun (acc : W × Bool) => Frame w acc.1) _ (fun a b h => hstep w a b h)
+  have h1 := foldl_inv (fun (acc : W × Bool) => Frame w acc.1) W.drainStep (fun a b h => drainStep_frame w a b h)
     (sortS w.F.qMust) ({ w with F := { w.F with qMust := [] } }, false) h0
-  generalize List.foldl _ ({ w with F := { w.F with qMust := [] } }, false) (sortS w.F.qMust) = r1 at h1
-  obtain ⟨w1, f1⟩ := r1
-  dsimp only at h1 ⊢
   split
   · exact h1
-  · have h2 : Frame w { w1 with F := { w1.F with qBg := [] } } := Frame.trans h1 ⟨rfl, rfl, rfl⟩
-    exact foldl_inv (fun (acc : W × Bool) => Frame w acc.1) _ (fun a b h => hstep w a b h) _ _ h2
+  · refine foldl_inv (fun (acc : W × Bool) => Frame w acc.1) W.drainStep (fun a b h => drainStep_frame w a b h) _ _ ?_
+    exact Frame.trans h1 ⟨rfl, rfl, rfl⟩
 
 theorem qAddAll_desired (b : Bool) (l : List String) (F : Felix) :
     (l.foldl (fun F n => F.qAdd n b) F).desired = F.desired :=
